@@ -28,7 +28,7 @@ ASSUMPTIONS = [
     "oracle: Bayes-ball on the latent-expanded DAG cross-checked with networkx",
 ]
 BUDGET = {
-    "quick": dict(examples=120, shards=16, seconds=240, exhaustive=True, exhaustive_shards=8),
+    "quick": dict(examples=300, shards=16, seconds=240, exhaustive=True, exhaustive_shards=8),
     "thorough": dict(examples=1500, shards=16, seconds=1500, exhaustive=True, exhaustive_shards=16),
 }
 ESSENTIAL_LABELS = {t: ["limit-binds", "mode=default", "mode=lenlex-all", "k=None"] for t in ("quick", "thorough")}
